@@ -468,7 +468,9 @@ LEAF_POOLS = {
     "datetime": [datetime.datetime(1970, 1, 1, tzinfo=UTC), datetime.datetime(2020, 2, 29, 12, 30, 15, 999999, tzinfo=tz(5, 30)),
                  datetime.datetime(1999, 12, 31, 23, 59, 59, tzinfo=tz(-3, -30)), datetime.datetime(2021, 6, 1, 0, 0, 0, 1, tzinfo=tz(-8)),
                  datetime.datetime(2020, 11, 1, 1, 30, tzinfo=tz(14), fold=1), datetime.datetime(9999, 12, 31, 23, 59, 59, 999999, tzinfo=UTC),
-                 datetime.datetime(1, 1, 1, tzinfo=UTC)],
+                 datetime.datetime(1, 1, 1, tzinfo=UTC),
+                 # the first / last hours of the calendar at an offset: their UTC instants lie outside year 1..9999
+                 datetime.datetime(1, 1, 1, 0, 30, tzinfo=tz(5, 30)), datetime.datetime(9999, 12, 31, 23, 30, 0, 1, tzinfo=tz(-3, -30))],
     "time": [datetime.time(0, 0, tzinfo=UTC), datetime.time(12, 30, tzinfo=tz(5)), datetime.time(23, 59, 59, 999999, tzinfo=tz(-8)),
              datetime.time(1, 2, 3, 4, tzinfo=tz(5, 30))],
     "timedelta": [datetime.timedelta(0), datetime.timedelta(seconds=1), datetime.timedelta(days=7), datetime.timedelta(days=8, seconds=1),
